@@ -310,6 +310,9 @@ func (m *RuleManager) tryCommitPatch(patch *ruleConfigPatch) error {
 
 	ruleList, err := buildRuleList(patch)
 	if err != nil {
+		// patch.adjust() has bound the rules being served to the groups of the rejected patch,
+		// bind them to the committed groups again.
+		m.ruleConfig.adjust()
 		return err
 	}
 
@@ -318,6 +321,7 @@ func (m *RuleManager) tryCommitPatch(patch *ruleConfigPatch) error {
 	// save updates
 	err = m.savePatch(patch.mut)
 	if err != nil {
+		m.ruleConfig.adjust()
 		return err
 	}
 
